@@ -28,7 +28,7 @@ def replay_case(case, tag, rng, tier):
            "cls": "%s|%s|%s" % (a["k"], b["k"], "zero" if d2[0] == 0 else "pos")}
     for pose in common.poses_for((a, b), rng, 2):
         num = common.num_for(rng, pose, (a, b))
-        la, lb = build(a, pose, num), build(b, pose, num)
+        la, lb = common.build_variant(a, pose, num, rng), common.build_variant(b, pose, num, rng)
         want = sqrt_rat(d2, pose.lam)
         forms = [("func", lambda: G.distance(la, lb)), ("swapped", lambda: G.distance(lb, la))]
         if a["k"] in ("Line", "Plane"):
